@@ -22,6 +22,10 @@ type binding struct {
 	elem     string            // ... and the Coq name standing for xs[i]
 	elemTy   Type
 	lenOf    string // list variable: Coq name of the list parameter whose length it is statically known to have
+	natIdx   bool   // index of an append loop `for i := K; i < len(xs); i++` (a Coq nat named `name`)
+	natOf    string // ... the Go name of xs
+	natMin   int    // ... K (xs[i-c] is allowed for literals c <= K)
+	emptyLst bool   // list variable holding the result of make([]T, 0[, cap]) and nothing else: the empty list
 }
 
 type Env struct{ scopes []map[string]*binding }
@@ -55,7 +59,7 @@ func (e *Env) lookup(n string) *binding {
 	return nil
 }
 func (e *Env) define(n string, b *binding) { e.scopes[len(e.scopes)-1][n] = b }
-func (e *Env) inTop(n string) bool          { _, ok := e.scopes[len(e.scopes)-1][n]; return ok }
+func (e *Env) inTop(n string) bool         { _, ok := e.scopes[len(e.scopes)-1][n]; return ok }
 func (e *Env) assign(n string, b *binding) {
 	for i := len(e.scopes) - 1; i >= 0; i-- {
 		if _, ok := e.scopes[i][n]; ok {
@@ -88,28 +92,34 @@ type fnTr struct {
 	result   Type
 	params   []string // rendered "(x : T)"
 
-	closureMode bool     // the function returns a function literal: its parameters are appended
+	closureMode bool // the function returns a function literal: its parameters are appended
 	inClosure   bool
 	cparams     []string // Coq names of the closure parameters (shared by every returned literal)
 	cparamTys   []Type
 
-	hasPanic  bool // the body contains `if c { panic(..) }`
-	panicMode bool // second pass: render the condition under which the Go function panics
+	hasPanic     bool     // the body contains `if c { panic(..) }` or calls a function that has a _panics companion
+	calleePanics []string // conditions `(f_panics args)` of the calls translated since the last statement boundary
+	panicMode    bool     // second pass: render the condition under which the Go function panics
 }
 
-func (w *World) translateFunc(m *Module, key string, fd *ast.FuncDecl) (string, error) {
+func (w *World) translateFunc(m *Module, key string, fd *ast.FuncDecl) (string, bool, error) {
+	text, hasPanic, err := w.translateFunc2(m, key, fd)
+	return text, hasPanic && err == nil, err
+}
+
+func (w *World) translateFunc2(m *Module, key string, fd *ast.FuncDecl) (string, bool, error) {
 	hasPanic := false
 	text, err := w.translateFuncPass(m, key, fd, false, &hasPanic)
 	if err != nil || !hasPanic {
-		return text, err
+		return text, false, err
 	}
 	// the function can panic: a companion <name>_panics says when (the main definition yields the zero
 	// value of its result type there; theorems carry the hypothesis <name>_panics ... = false)
 	ptext, err := w.translateFuncPass(m, key, fd, true, &hasPanic)
 	if err != nil {
-		return "", err
+		return "", false, err
 	}
-	return text + "\n" + ptext, nil
+	return text + "\n" + ptext, true, nil
 }
 
 func (w *World) translateFuncPass(m *Module, key string, fd *ast.FuncDecl, panicMode bool, hasPanic *bool) (string, error) {
@@ -534,31 +544,34 @@ func (t *fnTr) stmts(list []ast.Stmt, env *Env, k cont) (string, error) {
 		if err != nil {
 			return "", err
 		}
+		conds := t.takePanics()
 		r, err := next(env)
 		if err != nil {
 			return "", err
 		}
-		return joinLets(lets, r), nil
+		return t.guardPanics(conds, joinLets(lets, r)), nil
 	case *ast.DeclStmt:
 		lets, err := t.decl(s, env)
 		if err != nil {
 			return "", err
 		}
+		conds := t.takePanics()
 		r, err := next(env)
 		if err != nil {
 			return "", err
 		}
-		return joinLets(lets, r), nil
+		return t.guardPanics(conds, joinLets(lets, r)), nil
 	case *ast.ExprStmt:
 		lets, err := t.exprStmt(s, env)
 		if err != nil {
 			return "", err
 		}
+		conds := t.takePanics()
 		r, err := next(env)
 		if err != nil {
 			return "", err
 		}
-		return joinLets(lets, r), nil
+		return t.guardPanics(conds, joinLets(lets, r)), nil
 	case *ast.IfStmt:
 		return t.ifStmt(s, env, next)
 	case *ast.ForStmt:
@@ -566,17 +579,20 @@ func (t *fnTr) stmts(list []ast.Stmt, env *Env, k cont) (string, error) {
 		var err error
 		if as, ix, ok := isIndexStoreBody(s.Body); ok {
 			lets, err = t.forMap(s, as, ix, env)
+		} else if as, ok := isAppendBody(s.Body); ok {
+			lets, err = t.forAppend(s, as, env)
 		} else {
 			lets, err = t.forFold(s, env)
 		}
 		if err != nil {
 			return "", err
 		}
+		conds := t.takePanics()
 		r, err := next(env)
 		if err != nil {
 			return "", err
 		}
-		return joinLets(lets, r), nil
+		return t.guardPanics(conds, joinLets(lets, r)), nil
 	case *ast.RangeStmt:
 		var lets []string
 		var err error
@@ -588,11 +604,12 @@ func (t *fnTr) stmts(list []ast.Stmt, env *Env, k cont) (string, error) {
 		if err != nil {
 			return "", err
 		}
+		conds := t.takePanics()
 		r, err := next(env)
 		if err != nil {
 			return "", err
 		}
-		return joinLets(lets, r), nil
+		return t.guardPanics(conds, joinLets(lets, r)), nil
 	case *ast.SwitchStmt:
 		ifs, err := t.switchAsIf(s)
 		if err != nil {
@@ -689,7 +706,18 @@ func joinLets(lets []string, body string) string {
 
 func (t *fnTr) ret(s *ast.ReturnStmt, env *Env) (string, error) {
 	if t.panicMode {
-		return "false", nil
+		// the return itself does not panic; a callee in its operands may
+		if !t.inClosure {
+			for _, r := range s.Results {
+				if _, isLit := r.(*ast.FuncLit); isLit {
+					continue
+				}
+				if _, err := t.expr(r, env); err != nil {
+					return "", err
+				}
+			}
+		}
+		return t.guardPanics(t.takePanics(), "false"), nil
 	}
 	switch len(s.Results) {
 	case 0:
@@ -821,6 +849,10 @@ func (t *fnTr) assign(s *ast.AssignStmt, env *Env) ([]string, error) {
 				return nil, t.errf(s, "unsupported assignment target for make")
 			}
 			v, root, err := t.makeList(mc, env)
+			empty := false
+			if ev, isEmpty, eerr := t.makeEmpty(mc, env); isEmpty {
+				v, root, err, empty = ev, "", eerr, true
+			}
 			if err != nil {
 				return nil, err
 			}
@@ -832,6 +864,7 @@ func (t *fnTr) assign(s *ast.AssignStmt, env *Env) ([]string, error) {
 				return nil, err
 			}
 			env.lookup(id.Name).lenOf = root
+			env.lookup(id.Name).emptyLst = empty
 			return ls, nil
 		}
 	}
@@ -1069,12 +1102,17 @@ func (t *fnTr) ifStmt(s *ast.IfStmt, env *Env, next cont) (string, error) {
 		inner := next
 		next = func(e *Env) (string, error) { return inner(e.pop()) }
 	}
+	initConds := t.takePanics()
 	c, err := t.expr(s.Cond, env)
 	if err != nil {
 		return "", err
 	}
 	if c.ty.K != KBool {
 		return "", t.errf(s.Cond, "condition is not boolean")
+	}
+	condConds := t.takePanics()
+	finish := func(lets []string, code string) string {
+		return t.guardPanics(initConds, joinLets(lets, t.guardPanics(condConds, code)))
 	}
 	// `if c { panic(..) }`: Go stops here; the total Gallina function yields the zero value of its result
 	// type and <name>_panics (second pass) yields true
@@ -1112,7 +1150,7 @@ func (t *fnTr) ifStmt(s *ast.IfStmt, env *Env, next cont) (string, error) {
 			return "", err
 		}
 		code := fmt.Sprintf("if %s\nthen (* panic *) %s\nelse (\n%s)", c.code, thenCode, indent(elseCode, "  "))
-		return joinLets(initLets, code), nil
+		return finish(initLets, code), nil
 	}
 	// conditional single assignment to an outer scalar/vector variable, no else: a phi
 	if s.Else == nil && len(s.Body.List) == 1 {
@@ -1121,6 +1159,9 @@ func (t *fnTr) ifStmt(s *ast.IfStmt, env *Env, next cont) (string, error) {
 				if b := env.lookup(id.Name); b != nil && !b.exploded {
 					v, err := t.expr(as.Rhs[0], env)
 					if err != nil {
+						return "", err
+					}
+					if err := t.noCalleePanicsSince(0, as, "a conditional assignment"); err != nil {
 						return "", err
 					}
 					if !v.ty.eq(b.ty) {
@@ -1135,7 +1176,7 @@ func (t *fnTr) ifStmt(s *ast.IfStmt, env *Env, next cont) (string, error) {
 					if err != nil {
 						return "", err
 					}
-					return joinLets(append(initLets, lets...), r), nil
+					return finish(append(initLets, lets...), r), nil
 				}
 			}
 		}
@@ -1160,7 +1201,7 @@ func (t *fnTr) ifStmt(s *ast.IfStmt, env *Env, next cont) (string, error) {
 		return "", err
 	}
 	code := fmt.Sprintf("if %s\nthen (\n%s)\nelse (\n%s)", c.code, indent(thenCode, "  "), indent(elseCode, "  "))
-	return joinLets(initLets, code), nil
+	return finish(initLets, code), nil
 }
 
 func isPanicStmt(s ast.Stmt) bool {
@@ -1255,6 +1296,9 @@ func (t *fnTr) forFold(s *ast.ForStmt, env *Env) ([]string, error) {
 	if err != nil {
 		return nil, err
 	}
+	if err := t.noCalleePanicsSince(0, as, "a loop body"); err != nil {
+		return nil, err
+	}
 	if !v.ty.eq(ab.ty) {
 		return nil, t.errf(as, "assignment changes the type of %s", acc.Name)
 	}
@@ -1338,6 +1382,9 @@ func (t *fnTr) rangeFold(s *ast.RangeStmt, env *Env) ([]string, error) {
 	if err != nil {
 		return nil, err
 	}
+	if err := t.noCalleePanicsSince(0, as, "a loop body"); err != nil {
+		return nil, err
+	}
 	if !v.ty.eq(ab.ty) {
 		return nil, t.errf(as, "assignment changes the type of %s", acc.Name)
 	}
@@ -1413,6 +1460,9 @@ func (t *fnTr) expr(e ast.Expr, env *Env) (val, error) {
 		if b := env.lookup(e.Name); b != nil {
 			if b.loopOf != "" {
 				return val{}, t.errf(e, "unsupported use of loop index %s (only as %s[%s])", e.Name, b.loopOf, e.Name)
+			}
+			if b.natIdx {
+				return val{}, t.errf(e, "unsupported use of loop index %s (only as %s[%s] or %s[%s-c], c a literal <= %d)", e.Name, b.natOf, e.Name, b.natOf, e.Name, b.natMin)
 			}
 			return val{t.valueOf(b), b.ty}, nil
 		}
@@ -1574,6 +1624,9 @@ func (t *fnTr) expr(e ast.Expr, env *Env) (val, error) {
 		}
 		if xs.ty.K != KList {
 			return val{}, t.errf(e, "unsupported index expression on %s", xs.ty)
+		}
+		if v, handled, err := t.natIndex(e, xs, env); handled {
+			return v, err
 		}
 		if id, ok := e.Index.(*ast.Ident); ok {
 			if b := env.lookup(id.Name); b != nil && b.loopOf != "" {
